@@ -26,6 +26,7 @@
 #include "numeric.h"
 #include "tensor.h"
 #include "vector.h"
+#include "verifhooks.h"
 
 
 void NewCPCAModel(CPCAMODEL **m){
@@ -272,6 +273,10 @@ void CPCA(tensor *x, int scaling, size_t npc, CPCAMODEL *model)
       MT_MatrixDVectorDotProduct(T, w_T, t_new);
      
       /* check for convergence */
+      #ifdef LIBSCIENTIFIC_VERIF
+      if(libsci_verif_tick_hook != NULL)
+        libsci_verif_tick_hook(2, pc, calcConvergence(t_new, t));
+      #endif
       if(calcConvergence(t_new, t) < CPCACONVERGENCE){
         #ifdef DEBUG
         printf("new score calculated\n");
